@@ -1,14 +1,150 @@
 /-
-  Driver/CollD.lean — line protocol of the `coll` engine (owner: the engineer of that engine).
-  `handle` consumes one input line (already split into tokens) and returns the new driver state
-  and one output line.
--/
-namespace Driver.CollD
+  Driver/CollD.lean — line protocol of the `coll` engine.
 
-structure DState where
-  dummy : Nat := 0
+    new <h> <kind> cap=<c> ids=<csv|->                     create vector `h` (kind: box fixed bump mut rev)
+    op <name> <h> [<h2>] <nat args…> [o=<outcomes>] [bombs=<csv>] [capin=<n>] [into=<h3>]
+    drop <h> [bombs=<csv>]                                  the owner is dropped
+    outcomes ::= csv of `r<nat>` (returned value / id produced) and `p` (panic); `-` = empty
+
+  Answers (compared verbatim with what the harness observed on the real types):
+    new  → `ok`
+    op   → `ids=<csv> len=<n> cap=<c> drops=<csv> esc=<csv> exit=<ret[:v]|panic|panic:drop> used=<k>`
+           (+ ` | <h2>: ids=… len=… cap=…` for operations with a second vector)
+    drop → `drops=<csv> exit=<…>`
+  A model fault (a hole was read, a live value overwritten, …) answers `fault <what>`; an unknown
+  handle / operation `bad-op`.
+-/
+import BumpProof.Coll.Vecs
+
+namespace Driver.CollD
+open Coll
+
+structure Entry where
+  name : String
+  kind : Kind
+  vec : Vec
   deriving Inhabited
 
-def handle (d : DState) (_toks : List String) : DState × String := (d, "bad-line")
+structure DState where
+  vecs : List Entry := []
+  deriving Inhabited
+
+def csv (l : List Nat) : String := if l.isEmpty then "-" else ",".intercalate (l.map toString)
+
+def parseCsv (s : String) : Option (List Nat) :=
+  if s == "-" || s == "" then some [] else (s.splitOn ",").mapM (·.toNat?)
+
+def parseOutcomes (s : String) : Option (List Outcome) :=
+  if s == "-" || s == "" then some []
+  else (s.splitOn ",").mapM fun t =>
+    if t == "p" then some Outcome.panic
+    else if t.startsWith "r" then (t.drop 1).toString.toNat?.map Outcome.ret
+    else none
+
+def parseKind : String → Option Kind
+  | "box" => some .box | "fixed" => some .fixed | "bump" => some .bump | "mut" => some .mut | "rev" => some .rev
+  | _ => none
+
+def kvOf (toks : List String) (k : String) : Option String :=
+  toks.findSome? fun t => if t.startsWith (k ++ "=") then some (t.drop (k.length + 1)).toString else none
+
+def find (d : DState) (h : String) : Option Entry := d.vecs.find? (·.name == h)
+
+def put (d : DState) (e : Entry) : DState :=
+  { vecs := e :: d.vecs.filter (·.name != e.name) }
+
+def del (d : DState) (h : String) : DState := { vecs := d.vecs.filter (·.name != h) }
+
+def showFault : Fault → String
+  | .readHole i => s!"fault read-hole {i}"
+  | .overwrite i => s!"fault overwrite {i}"
+  | .outOfBounds i => s!"fault out-of-bounds {i}"
+  | .overlap => "fault overlap"
+  | .assertion w => s!"fault assertion {w}"
+
+def showExit {α} (f : α → String) : Exit α → String
+  | .ret a => let s := f a; if s.isEmpty then "ret" else "ret:" ++ s
+  | .panic true => "panic:drop"
+  | .panic false => "panic"
+
+def showUnit (_ : Unit) : String := ""
+def showId (i : Id) : String := toString i
+def showOptId : Option Id → String
+  | none => "none" | some i => s!"some:{i}"
+
+/-- a `BumpBox<[T]>` has no capacity: the slots past `len` are not part of it any more -/
+def normalise (k : Kind) (v : Vec) : Vec :=
+  match k with
+  | .box => { v with slots := v.slots.take v.len }
+  | _ => v
+
+def showVec (v : Vec) : String := s!"ids={csv (idsOf (v.slots.take v.len))} len={v.len} cap={v.cap}"
+
+/-- observable part of a result; logs are reported as deltas and then cleared -/
+def report (v : Vec) (exit : String) (used : Nat) : String :=
+  s!"{showVec v} drops={csv v.dropLog} esc={csv v.escaped} exit={exit} used={used}"
+
+def clearLogs (v : Vec) : Vec := { v with dropLog := [], escaped := [] }
+
+/-- (new vector, exit text, oracle left) of a single-vector operation -/
+abbrev OpRes := M (Vec × String × List Outcome)
+
+def pack {α} (f : α → String) (r : M (Out α)) : OpRes :=
+  r.map fun o => (o.vec, showExit f o.exit, o.rest)
+
+def runOp (env : Env) (v : Vec) (name : String) (args : List Nat) (o : List Outcome) : Option OpRes :=
+  match name, args with
+  | "retain", [] => some (pack showUnit (retain env.bombs v o))
+  | "dedup_by", [] => some (pack showUnit (dedupBy env.bombs v o))
+  | "truncate", [n] => some ((pack showUnit (truncate env.bombs v n)).map fun (a, b, _) => (a, b, o))
+  | "clear", [] => some ((pack showUnit (clear env.bombs v)).map fun (a, b, _) => (a, b, o))
+  | "pop", [] => some ((pack showOptId (pop v)).map fun (a, b, _) => (a, b, o))
+  | "remove", [i] => some ((pack showId (remove v i)).map fun (a, b, _) => (a, b, o))
+  | "swap_remove", [i] => some ((pack showId (swapRemove v i)).map fun (a, b, _) => (a, b, o))
+  | "push", [id] => some ((pack showUnit (push env v id)).map fun (a, b, _) => (a, b, o))
+  | "insert", [i, id] => some ((pack showUnit (insert env v i id)).map fun (a, b, _) => (a, b, o))
+  | "extend_clone", [n] => some (pack showUnit (extendFromSliceClone env v n o))
+  | "resize", [n, id] => some (pack showUnit (resize env v n id o))
+  | _, _ => none
+
+def handleOp (d : DState) (toks : List String) : DState × String :=
+  match toks with
+  | name :: h :: rest =>
+    match find d h with
+    | none => (d, "bad-op unknown-handle")
+    | some e =>
+      let pos := rest.filter (fun t => !(t.contains '='))
+      match pos.mapM (·.toNat?), parseOutcomes ((kvOf rest "o").getD "-"), parseCsv ((kvOf rest "bombs").getD "-") with
+      | some args, some o, some bombs =>
+        let capIn := ((kvOf rest "capin").bind (·.toNat?)).getD 0
+        let env : Env := { bombs := bombs, kind := e.kind, capIn := capIn }
+        match runOp env (clearLogs e.vec) name args o with
+        | none => (d, "bad-op unknown-op")
+        | some (.error f) => (d, showFault f)
+        | some (.ok (v, exit, restO)) =>
+          let v := normalise e.kind v
+          (put d { e with vec := clearLogs v }, report v exit (o.length - restO.length))
+      | _, _, _ => (d, "bad-op unparsable")
+  | _ => (d, "bad-op")
+
+def handle (d : DState) (toks : List String) : DState × String :=
+  match toks with
+  | "new" :: h :: kind :: rest =>
+    match parseKind kind, (kvOf rest "cap").bind (·.toNat?), (kvOf rest "ids").bind parseCsv with
+    | some k, some cap, some ids =>
+      if ids.length ≤ cap then
+        (put d { name := h, kind := k, vec := { slots := I ids ++ H (cap - ids.length), len := ids.length } }, "ok")
+      else (d, "bad-op cap<len")
+    | _, _, _ => (d, "bad-op unparsable")
+  | "op" :: rest => handleOp d rest
+  | "drop" :: h :: rest =>
+    match find d h, parseCsv ((kvOf rest "bombs").getD "-") with
+    | some e, some bombs =>
+      match dropVec bombs false (clearLogs e.vec) with
+      | .error f => (d, showFault f)
+      | .ok r => (del d h, s!"drops={csv r.vec.dropLog} exit={showExit showUnit r.exit}")
+    | _, _ => (d, "bad-op")
+  | "reset" :: _ => ({}, "ok")
+  | _ => (d, "bad-line")
 
 end Driver.CollD
